@@ -217,7 +217,7 @@ theorem readControl_ctrlBody (ack : Nat) (c : Control) (tok : Token) (src : Src)
     readControl ⟨Tw.Gen.Packet7.PACKETFLAG_CONTROL, ack, 0, tok⟩ (ctrlBody c tok) src off
         (7 + (ctrlBody c tok).length) = ([], .ok (c, ctrlLoc c src off)) := by
   have hp : TOKEN_REQUEST_PADDING = 507 := by decide
-  unfold readControl
+  unfold readControl controlWarns controlValue responseToken
   cases c with
   | close m =>
     obtain ⟨hl, hz⟩ := hv
